@@ -38,6 +38,11 @@ CONFIGS = {
                            get=[("BUILD", 0), ("BASE64", None), ("PREPEND", b"session-token="), ("HEADER", b"Cookie")],
                            post=[("BUILD", 0), ("BASE64URL", None), ("PARAMETER", b"sid"), ("BUILD", 1), ("BASE64", None), ("PRINT", None)],
                            recover=[("print", None)]),
+    # the submit URI extends a get URI, and the uri-append data of the get transaction starts with exactly that extension
+    "nested_uris": dict(domains="a.example,/cdn", submit="/cdn/",
+                        get=[("BUILD", 0), ("BASE64URL", None), ("PREPEND", b"/"), ("URI_APPEND", None)],
+                        post=[("BUILD", 0), ("BASE64URL", None), ("PARAMETER", b"id"), ("BUILD", 1), ("BASE64", None), ("PRINT", None)],
+                        recover=[("print", None), ("base64", None)]),
     "swapped_verbs": dict(domains="a.example,/in", submit="/out", verb_get="POST", verb_post="GET",
                           get=[("BUILD", 0), ("BASE64", None), ("PRINT", None)],
                           post=[("BUILD", 0), ("BASE64URL", None), ("PARAMETER", b"i"), ("BUILD", 1), ("BASE64URL", None), ("HEADER", b"X-Data")],
@@ -112,7 +117,15 @@ def produce(client_mod, c2, beacon, key, conf_name, kinds, seed):
     peer = Peer(key, conf, rng)
     cl = client_mod.HttpBeaconClient()
     random.seed(seed)
-    cl.run(cfg, dry_run=True, beacon_id=rng.randrange(0, 2**31, 2), user="user", computer="HOST", process="p.exe", internal_ip="10.1.2.3", arch="x64", pid=4242)
+    # every third session derives its keys from a 128-bit draw with leading zero bytes (the metadata carries exactly 16 bytes)
+    real_getrandbits = random.getrandbits
+    if seed % 3 == 0:
+        draw = rng.choice([rng.getrandbits(120), rng.getrandbits(112), rng.getrandbits(128) >> 20 << 12])
+        random.getrandbits = lambda n: draw if n == 128 else real_getrandbits(n)
+    try:
+        cl.run(cfg, dry_run=True, beacon_id=rng.randrange(0, 2**31, 2), user="user", computer="HOST", process="p.exe", internal_ip="10.1.2.3", arch="x64", pid=4242)
+    finally:
+        random.getrandbits = real_getrandbits
     sent = []
     state = {"reply": None}
 
